@@ -96,7 +96,7 @@ class StmtProbe(e2.Probe):
                     continue        # loop left before a second iteration: nothing to compare on this path
                 out.append(e2.Goal("twomarks/p%d" % pi, s.pc, z3.BoolVal(False), note="%d marks on path" % len(marks)))
                 continue
-            a, b = marks[0], marks[1]
+            a, b = marks[0], (marks[-1] if getattr(self, "escape", False) else marks[1])
             out.append(e2.Goal("rsp/p%d" % pi, s.pc, a.regs["rsp"] == b.regs["rsp"],
                                note="stack pointer differs between the two marks"))
             if len(a.st) != len(b.st) or len(a.st) != 0:
@@ -111,6 +111,22 @@ class StmtProbe(e2.Probe):
         return out
 
     def runtime_replay(self):
+        if getattr(self, "escape", False):
+            return self.escape_replay()
+        return self.stmt_replay()
+
+    def escape_replay(self):
+        """repeat the escaping construct: a stack pointer that drifts exhausts the stack or breaks alignment"""
+        t = self.tname
+        body = self.csrc[self.csrc.index("{", self.csrc.index("void %s(" % self.fn)) + 1: self.csrc.rindex("}")]
+        body = body.replace("mark_" + self.fn + "();", "").replace("g_" + self.fn, "g").replace("g8_" + self.fn, "g8")
+        probe = ("%s\n%s g(%s v) { return v; } %s g8(int a, int b, int d, int e, int f, int h, int j, %s v) { return v; }\n"
+                 "void once(%s x, %s y, %s z, int c, int i, %s *p) { for (long n_ = 0; n_ < 3000000; n_++) { %s } }\n"
+                 % (self.pre, t, t, t, t, t, t, t, t, body.replace("out:", "out: ;").replace("out2:", "out2: ;")))
+        driver = "%s\nvoid once(%s, %s, %s, int, int, %s *);\nint main(void) { static %s q; once(1, 2, 3, 1, 0, &q); return 0; }\n" % (self.pre, t, t, t, t, t)
+        return probe, driver
+
+    def stmt_replay(self):
         """probe (chibicc): the statement once / many times; driver (gcc): observes the x87 tag word
         around one execution, NaN-ness of the operands, and survives 3M repetitions (no rsp leak)."""
         t = self.tname
@@ -172,6 +188,26 @@ def mk_probes(tier, only=None):
                 if st.count(";") == 1 and not st.startswith("{") and not st.startswith("if") and not st.startswith("switch"):
                     f = fn()
                     P.append(StmtProbe("loop/forinc/%s/%s" % (name, tid), f, tid, tname, pre, rc, st.replace("g(", "g_%s(" % f), loop="forinc"))
+    # ---- control leaving an expression that has pending temporaries (break / goto out of a statement expression)
+    if want("escape"):
+        for name, body in [("break-from-stmtexpr", "for (;;) { mark_FN(); x = y + ({ if (c) break; z; }); break; } mark_FN();"),
+                           ("continue-from-stmtexpr", "for (int k = 0; k < 2; k++) { mark_FN(); x = y + ({ if (c) continue; z; }); }"),
+                           ("goto-from-stmtexpr", "mark_FN(); x = y + ({ if (c) goto out; z; }); out: mark_FN();"),
+                           ("return-in-arg", "mark_FN(); g_FN(({ if (c) goto out2; y; })); out2: mark_FN();"),
+                           ("break-from-call-arg", "for (;;) { mark_FN(); g8_FN(i, i, i, i, i, i, i, ({ if (c) break; z; })); break; } mark_FN();")]:
+            for tid, tname, pre, rc in TYPES:
+                if tid not in ("long", "ldouble", "double"):
+                    continue
+                f = fn()
+                p = StmtProbe("escape/%s/%s" % (name, tid), f, tid, tname, pre, rc, "x;")
+                ints = lambda k: ", ".join(["int"] * k)
+                p.csrc = ("%s\nvoid mark_%s(void); %s g_%s(%s); %s g8_%s(%s, %s);\n"
+                          "void %s(%s x, %s y, %s z, int c, int i, %s *p) { %s }\n"
+                          % (pre, f, tname, f, tname, tname, f, ints(7), tname, f, tname, tname, tname, tname, body.replace("FN", f)))
+                p.extern_ret["g8_" + f] = rc if rc != "sse" else "int"
+                p.escape = True
+                p.loop = None
+                P.append(p)
     # ---- value-producing expressions leave exactly one usable value (checked by using it)
     if want("value"):
         for t in (INT, DOUBLE, LDOUBLE):
